@@ -266,6 +266,10 @@ fn mac3(mut acc: &mut [BigDigit], mut b: &[BigDigit], mut c: &[BigDigit]) {
         let (j0_sign, j0) = sub_sign(x1, x0);
         let (j1_sign, j1) = sub_sign(y1, y0);
 
+        #[cfg(num_bigint_verif)]
+        if j0_sign * j1_sign == NoSign {
+            verif_probe!(KaraNoSign);
+        }
         match j0_sign * j1_sign {
             Plus => {
                 verif_probe!(KaraPlus);
@@ -281,9 +285,7 @@ fn mac3(mut acc: &mut [BigDigit], mut b: &[BigDigit], mut c: &[BigDigit]) {
                 verif_probe!(KaraMinus);
                 mac3(&mut acc[b..], &j0.data, &j1.data);
             }
-            NoSign => {
-                verif_probe!(KaraNoSign);
-            }
+            NoSign => (),
         }
     } else {
         // Toom-3 multiplication:
